@@ -25,17 +25,54 @@ Definition plain_probe (k : opk) : bool :=
   end.
 Definition getter (k : opk) : bool := match k with KGetICC | KTransformBufSize => true | _ => false end.
 
+(* all operation kinds; the analysis of every kind is run once per lemma (the entry state of
+   the history mode is computed once) *)
+Definition all_kinds : list opk :=
+  [KSet; KSetScaling; KSetCrop; KSetICC; KCompress B8; KCompress B12; KCompress B16; KCompressYUV; KEncodeYUV;
+   KGetICC; KTransformBufSize; KHeader true; KHeader false; KDecompressYUV true; KDecompressYUV false;
+   KDecodeYUV true; KDecodeYUV false; KTransform true; KTransform false] ++
+  flat_map (fun b => flat_map (fun s => flat_map (fun c => map (fun m => KDecompress b s c m) [true; false]) [true; false]) [true; false])
+           [B8; B12; B16].
+Lemma all_kinds_complete : forall k, In k all_kinds.
+Proof. intro k. kinds k; vm_compute; tauto. Qed.
+
+Definition hist_ok_all (fx : fixes) (p : opk -> bool) : bool :=
+  let a := a_hist fx in
+  forallb (fun k => negb (p k) || match exits_from fx a k with Some _ => true | None => false end) all_kinds.
+Definition probe_ok_all (fx : fixes) (p : opk -> bool) : bool :=
+  forallb (fun k => negb (p k) || ok_probe fx [k]) all_kinds.
+
+Lemma hist_ok_all_spec fx p : hist_ok_all fx p = true -> forall k, p k = true -> ok_hist fx k = true.
+Proof.
+  unfold hist_ok_all. intros H k Hp. rewrite forallb_forall in H. specialize (H k (all_kinds_complete k)).
+  rewrite Hp in H. cbn in H. unfold ok_hist. exact H.
+Qed.
+Lemma probe_ok_all_spec fx p : probe_ok_all fx p = true -> forall k, p k = true -> ok_probe fx [k] = true.
+Proof.
+  unfold probe_ok_all. intros H k Hp. rewrite forallb_forall in H. specialize (H k (all_kinds_complete k)).
+  rewrite Hp in H. cbn in H. exact H.
+Qed.
+
 Lemma ok_hist_fixed : forall k, ok_hist all_fixed k = true.
-Proof. intro k. kinds k; vm_compute; reflexivity. Qed.
+Proof. intro k. apply (hist_ok_all_spec all_fixed (fun _ => true)); [vm_compute; reflexivity | reflexivity]. Qed.
 
 Lemma ok_hist_faithful : forall k, crop_merged k = false -> ok_hist faithful k = true.
-Proof. intros k H. kinds k; try discriminate H; vm_compute; reflexivity. Qed.
+Proof.
+  intros k H. apply (hist_ok_all_spec faithful (fun k => negb (crop_merged k))); [vm_compute; reflexivity|].
+  rewrite H. reflexivity.
+Qed.
 
 Lemma ok_probe_fixed : forall k, is_selfc k = true -> getter k = false -> ok_probe all_fixed [k] = true.
-Proof. intros k H G. kinds k; try discriminate H; try discriminate G; vm_compute; reflexivity. Qed.
+Proof.
+  intros k H G. apply (probe_ok_all_spec all_fixed (fun k => is_selfc k && negb (getter k))); [vm_compute; reflexivity|].
+  rewrite H, G. reflexivity.
+Qed.
 
 Lemma ok_probe_faithful : forall k, is_selfc k = true -> plain_probe k = true -> ok_probe faithful [k] = true.
-Proof. intros k H G. kinds k; try discriminate H; try discriminate G; vm_compute; reflexivity. Qed.
+Proof.
+  intros k H G. apply (probe_ok_all_spec faithful (fun k => is_selfc k && plain_probe k)); [vm_compute; reflexivity|].
+  rewrite H, G. reflexivity.
+Qed.
 
 Lemma ok_probe_getters_fixed :
   ok_probe all_fixed [KHeader true; KGetICC] = true /\ ok_probe all_fixed [KHeader true; KTransformBufSize] = true.
@@ -67,7 +104,11 @@ Lemma f5_witness :
 Proof. intro H. first [ solve [vm_compute in H; discriminate H] | vm_compute; auto ]. Qed.
 
 Lemma f5_fixed : skip_ignores_stale_cconvert = true -> forall k, ok_hist faithful k = true.
-Proof. intros H k. first [ solve [vm_compute in H; discriminate H] | kinds k; vm_compute; reflexivity ]. Qed.
+Proof.
+  intros H k.
+  first [ solve [vm_compute in H; discriminate H]
+        | apply (hist_ok_all_spec faithful (fun _ => true)); [vm_compute; reflexivity | reflexivity] ].
+Qed.
 
 (* F9: header of an image with an ICC profile, then header of an image without one, then
    tj3GetICCProfile *)
